@@ -384,7 +384,13 @@ func (d *Datastore) TransactionSet(ctx context.Context, transactionId string, tr
 	if !d.dmutex.TryLock() {
 		return nil, ErrDatastoreLocked
 	}
-	defer d.dmutex.Unlock()
+	// the datastore lock is released while waiting for an ongoing transaction to finish, see below
+	locked := true
+	defer func() {
+		if locked {
+			d.dmutex.Unlock()
+		}
+	}()
 
 	log.Infof("Transaction: %s - start", transactionId)
 
@@ -403,14 +409,21 @@ func (d *Datastore) TransactionSet(ctx context.Context, transactionId string, tr
 			log.Errorf("Transaction: %s - context canceled or timed out: %v", transactionId, ctx.Err())
 			return nil, ErrDatastoreLocked
 		default:
-			// Start a transaction and prepare to cancel it if any error occurs
-			transactionGuard, err = d.transactionManager.RegisterTransaction(ctx, transaction)
-			if transactionGuard != nil {
-				defer transactionGuard.Done()
-				break
+			if locked {
+				// Start a transaction and prepare to cancel it if any error occurs
+				transactionGuard, err = d.transactionManager.RegisterTransaction(ctx, transaction)
+				if transactionGuard != nil {
+					defer transactionGuard.Done()
+					break
+				}
+				log.Warnf("Transaction: %s - failed to create transaction, retrying: %v", transactionId, err)
+				// release the datastore lock while waiting. TransactionConfirm and TransactionCancel of the
+				// ongoing transaction need it, otherwise only the rollback timer could ever end the wait.
+				d.dmutex.Unlock()
+				locked = false
 			}
-			log.Warnf("Transaction: %s - failed to create transaction, retrying: %v", transactionId, err)
 			time.Sleep(time.Millisecond * 200)
+			locked = d.dmutex.TryLock()
 		}
 		if transactionGuard != nil {
 			break
